@@ -54,7 +54,7 @@ ASSUMPTIONS = [
     "claim holds only on the declared lattice",
 ]
 REQUIRED_CLASSES = [
-    "cx:emitting", "cx:zero:beam", "cx:zero:receiver", "cx:neutral-present", "cx:ions-only", "cx:M=1", "cx:M=2", "cx:M=3",
+    "cx:species-replaced-after-evaluation", "bes:species-replaced-after-evaluation", "cx:emitting", "cx:zero:beam", "cx:zero:receiver", "cx:neutral-present", "cx:ions-only", "cx:M=1", "cx:M=2", "cx:M=3",
     "cx:ground-last", "cx:flow=none", "cx:flow=along", "cx:flow=oblique", "cx:B=zero", "cx:B=on", "cx:single-ion",
     "cx:multi-ion", "cx:other-ion-zero", "cx:q-spread", "cx:population>1", "cx:population<1", "cx:nonunit-direction",
     "bes:emitting", "bes:zero:beam", "bes:zero:ions", "bes:neutral-present", "bes:ions-only", "bes:single-ion",
@@ -491,6 +491,48 @@ def run_case(case):
                         _cx_eval(case, ref, obs, dname, viol, classes)
                     else:
                         _bes_eval(case, ref, obs, dname, viol, classes)
+    # ---- a species replaced through composition.add() after the model has been evaluated (engine-H style step inside this
+    # lattice check): the live model must then give what a scene gives in which the species was replaced before any evaluation
+    try:
+        from cherab.core import Species, Maxwellian
+        from cherab.core.atomic import elements as em
+
+        def replace_first_ion(pl):
+            k = next(k for k in case["comp"] if R.SPECIES[k][1] >= 1)
+            old = pl.composition.get(getattr(em, R.SPECIES[k][0]), R.SPECIES[k][1])
+            od = old.distribution
+            new = Maxwellian(lambda x, y, z: 2.5 * od.density(x, y, z), lambda x, y, z: 0.6 * od.effective_temperature(x, y, z),
+                             lambda x, y, z: od.bulk_velocity(x, y, z), old.element.atomic_weight * R.AMU)
+            pl.composition.add(Species(old.element, old.charge, new))
+
+        def evaluate(mdl, bm):
+            # (no setter is called here: any beam setter would notify the model and hide a missing composition notification)
+            vals = []
+            for (bcls, bp), (pcls, pp) in ((R.BEAM_POINTS[0], R.PLASMA_POINTS[0]), (R.BEAM_POINTS[1], R.PLASMA_POINTS[1])):
+                sp = Spectrum(*window)
+                o = mdl.emission(Point3D(*bp), Point3D(*pp), Vector3D(*R.BEAM_DIR[dirs[0]]), obs_dir, sp)
+                vals.append(math.fsum(float(v) for v in o.samples) * o.delta_wavelength)
+            return vals
+
+        beam.energy = energies[0]
+        before = evaluate(model, beam)
+        replace_first_ion(plasma)
+        live = evaluate(model, beam)
+        w2, p2, b2, m2, _ = _build(case)
+        b2.energy = energies[0]
+        replace_first_ion(p2)
+        fresh = evaluate(m2, b2)
+        n += 4
+        classes.append(kind + ":species-replaced-after-evaluation")
+        if any(f != b for f, b in zip(fresh, before)):
+            nontrivial.add((ckey, "species-replaced"))
+        if not all(_close(a, b, 1e-12) or a == b for a, b in zip(live, fresh)):
+            viol.append({"sig": "C05:%s:species-replaced-after-evaluation:differs-from-scene-with-the-replacement-made-before-any-evaluation:%s" % (mname, neut),
+                         "what": "plasma.composition.add(Species(same element and charge, 2.5 x density, 0.6 x temperature)) after the model was evaluated",
+                         "expected": fresh, "observed": live})
+    except Exception as e:  # noqa
+        viol.append({"sig": "C05:%s:species-replaced-after-evaluation:raises:%s" % (mname, type(e).__name__), "what": "replacing a species after an evaluation",
+                     "expected": "an emission value", "observed": repr(e)[:200]})
     # per-case class labels
     classes += [kind + ":" + neut, kind + (":multi-ion" if nions > 1 else ":single-ion")]
     if kind == "cx":
